@@ -556,19 +556,26 @@ pub struct Property {
 /// 16 idle cores so that each quick check does 15-45 s of fixed work (DESIGN §9.4).
 pub fn case_scale(id: &str, tier: Tier) -> f64 {
     let (q, t) = match id {
-        "C03" => (2.0, 1.0),
-        "C04" => (10.0, 3.0),
-        "C06" => (3.0, 1.0),
-        "C07" => (15.0, 4.0),
-        "C08" => (8.0, 2.0),
-        "C09" => (8.0, 3.0),
-        "C11" => (10.0, 2.0),
-        "C12" => (2.0, 1.0),
-        "C13" => (4.0, 1.0),
-        "C15" => (4.0, 1.0),
-        "C17" => (4.0, 1.0),
-        "C19" => (6.0, 1.0),
-        "C20" => (3.0, 1.0),
+        "C01" => (3.0, 1.5),
+        "C02" => (4.0, 2.0),
+        "C03" => (40.0, 20.0),
+        "C04" => (30.0, 15.0),
+        "C05" => (12.0, 6.0),
+        "C06" => (9.0, 4.0),
+        "C07" => (100.0, 50.0),
+        "C08" => (16.0, 8.0),
+        "C09" => (24.0, 12.0),
+        "C10" => (2.0, 1.0),
+        "C11" => (20.0, 10.0),
+        "C12" => (4.0, 2.0),
+        "C13" => (8.0, 4.0),
+        "C14" => (15.0, 7.0),
+        "C15" => (16.0, 8.0),
+        "C16" => (8.0, 4.0),
+        "C17" => (40.0, 20.0),
+        "C18" => (6.0, 3.0),
+        "C19" => (12.0, 6.0),
+        "C20" => (6.0, 3.0),
         _ => (1.0, 1.0),
     };
     let base = tier.pick(q, t);
